@@ -251,3 +251,7 @@ package netflow9
 // Dump marshals every shard by reflection: all shards must be read-locked across json.Marshal (C10, C15)
 //@ func (MemCache).Dump
 //@   requires wellFormed9(m)
+//@   loop 1
+//@     acquires m R
+//@   loop 2
+//@     releases m
